@@ -340,6 +340,38 @@ func verifC17_MQTTDeleteEvent() {
 	verifAssert(alive <= 1, "connected-clients-never-exceed-the-cap")
 }
 
+// verifC15_DeliveryAfterTakeover: a second connection takes over the client id; the superseded
+// connection ends later and tears down. The new connection then subscribes and a message is
+// published: it is delivered to the new connection (the registered client of that id), for
+// QoS 0 and 1, with both cleanSession values of the two connections.
+func verifC15_DeliveryAfterTakeover() {
+	b := vC16Broker(0)
+	c1 := vConnect("c", verifBool("old.cleanSession"), "")
+	go b.handleConn(c1)
+	verifQuiesce()
+	c2 := vConnect("c", verifBool("new.cleanSession"), "")
+	go b.handleConn(c2)
+	verifQuiesce()
+	verifAssert(c2.connack == int(packets.Accepted), "takeover-accepted")
+	cl2 := b.clients["c"]
+	verifAssert(cl2 != nil && cl2.conn == net.Conn(c2), "broker-maps-the-id-to-the-new-connection")
+	close(c1.drop) // the superseded connection ends now
+	verifQuiesce()
+	if cl2.disconnected() {
+		// known finding F-C16-1b: with a clean old session the old teardown ends the new
+		// connection through the delete watch; nothing to deliver to
+		return
+	}
+	q := byte(verifInt("qos", 0, 1))
+	verifAssert(cl2.processPacket(vSubscribePacket(5, []string{"t/2"}, []byte{q})) == nil, "subscribe-accepted")
+	for len(cl2.writeCh) > 0 {
+		<-cl2.writeCh // SUBACK
+	}
+	b.sendMsgToClient(nil, "t/2", []byte{7}, q)
+	verifAssert(len(cl2.writeCh) == 1, "message-delivered-to-the-connection-that-holds-the-client-id")
+	verifCover("delivered-after-takeover")
+}
+
 // ---- persistence of session changes ----------------------------------------------------------
 
 var vEncodeSeq int
